@@ -221,6 +221,7 @@ static void worker(uint64_t seed, uint64_t ncases, unsigned W, unsigned w, unsig
     }
     if (o.ci.nontrivial) { a.nontriv++; a.hashes.push_back(o.ci.hash); }
     for (auto l : o.ci.labels) a.labels[l]++;
+    if (o.ci.mixin_count) a.labels["sub_evaluations"] += o.ci.mixin_count;
     for (auto& x : o.ci.excluded) a.excluded[x]++;
     if (wd && a.samples.size() < 6 && (o.ci.nontrivial || a.samples.empty())) {
       std::string d = o.ci.desc; if (d.size() > 900) { d.resize(900); d += "..."; }
@@ -408,7 +409,7 @@ static int pbt(uint64_t seed, uint64_t ncases, unsigned W, unsigned max_scale, c
 
 int driver_main(int argc, char** argv) {
   uint64_t seed = 1, cases = 1000; unsigned W = 16, max_scale = 100; std::string rundir = "/var/tmp/eng-run"; std::string rep; int timeout_s = 0;
-  bool quiet = false;
+  bool quiet = false; int fixed = -1;
   for (int i = 1; i < argc; i++) {
     std::string a = argv[i];
     auto nxt = [&]() -> const char* { return i + 1 < argc ? argv[++i] : ""; };
@@ -420,12 +421,21 @@ int driver_main(int argc, char** argv) {
     else if (a == "--replay") rep = nxt();
     else if (a == "--timeout") timeout_s = atoi(nxt());
     else if (a == "--quiet") quiet = true;
+    else if (a == "--fixed") fixed = atoi(nxt());
     else if (a == "--sub") g_params.sub = atol(nxt());
     else if (a == "--known") { std::string k = nxt(); size_t p = 0; while (p <= k.size()) { size_t q = k.find(',', p); if (q == std::string::npos) q = k.size(); if (q > p) g_known.insert(k.substr(p, q - p)); p = q + 1; } }
     else { fprintf(stderr, "unknown argument %s\n", a.c_str()); return 2; }
   }
   if (max_scale > 255) max_scale = 255;
   g_params.max_scale = max_scale;
+  if (fixed >= 0) {
+    if (!g_prop.fixed) { fprintf(stderr, "no fixed cases in this property\n"); return 2; }
+    install_crash_handlers(); if (g_prop.setup) g_prop.setup();
+    CaseInfo ci; ci.want_desc = true;
+    try { g_prop.fixed((unsigned)fixed, ci); } catch (Fail& f) { if (!quiet) printf("fixed case %d: FAIL %s\ncase: %s\n", fixed, f.msg.c_str(), ci.desc.c_str()); return 1; }
+    if (!quiet) printf("fixed case %d: property holds\ncase: %s\n", fixed, ci.desc.c_str());
+    return 0;
+  }
   if (!rep.empty()) return replay(rep, quiet);
   return pbt(seed, cases, W, max_scale, rundir, timeout_s);
 }
